@@ -12,11 +12,22 @@ package props
 // is consumed by END, nothing is pending besides END), so this family is a direct property
 // predicate on the real runtime; the copy bookkeeping it exercises is the one the ledger
 // theorems (Props/C19.lean) are about.
+//
+// Second dimension: where a control-only successor (a `dep` node, a branch end) takes its OWN data
+// from — START (AddInput), nothing at all, static values only, START without control, the
+// producer without control. It decides whether the target has an entry in the runner's
+// dataPredecessors at all, which data senders the channel waits for, and whether a deselected end
+// is skipped. The copy-routing model (Model/C19Route.lean, oracle case kind "workflow") names the
+// fate of every copy of the producer's stream (drained / closed after a prefix / closed by the
+// framework); the theorems say none is dropped for any case of the family. Compared: the producer
+// must be released (model: mustRelease) and, when some reader drains the stream (model:
+// mustFinish), it must have got to send every chunk without being told "closed".
 
 import (
 	"context"
 	"encoding/json"
 	"fmt"
+	"io"
 	"os"
 	"runtime"
 	"sort"
@@ -34,6 +45,35 @@ import (
 type c19wSucc struct {
 	Key  string `json:"key"`
 	Kind string `json:"kind"` // input | dataonly | dep | branchend
+	// own data input of a dep / branchend successor: "" or start (AddInput(START)) | none (no input
+	// at all) | static (SetStaticValue only) | indirect (START, WithNoDirectDependency) |
+	// pdata (the producer, WithNoDirectDependency; a dep with pdata is AddInput("p"))
+	Data string `json:"data,omitempty"`
+}
+
+// what the copy-routing model says about the case
+type c19wVerdict struct {
+	Fates       []string `json:"fates"`
+	Copies      int      `json:"copies"`
+	Ledger      int      `json:"ledgerCreated"`
+	Dropped     int      `json:"dropped"`
+	MustRelease bool     `json:"mustRelease"`
+	MustFinish  bool     `json:"mustFinish"`
+	NoDataPreds []string `json:"noDataPreds"`
+}
+
+func c19wOwnData(n *compose.WorkflowNode, data string) {
+	switch data {
+	case "", "start":
+		n.AddInput(compose.START)
+	case "none":
+	case "static":
+		n.SetStaticValue(compose.FieldPath{"s"}, "s;")
+	case "indirect":
+		n.AddInputWithOptions(compose.START, nil, compose.WithNoDirectDependency())
+	case "pdata":
+		n.AddInputWithOptions("p", nil, compose.WithNoDirectDependency())
+	}
 }
 
 type c19wCase struct {
@@ -73,10 +113,16 @@ func c19wBuild(c *c19wCase, tr *c19Tracker) (*compose.Workflow[gcase.M, gcase.M]
 			// data from p without control; control comes from START
 			n.AddInputWithOptions("p", nil, compose.WithNoDirectDependency()).AddDependency(compose.START)
 		case "dep":
-			n.AddDependency("p").AddInput(compose.START)
+			if s.Data == "pdata" {
+				n.AddInput("p")
+			} else {
+				c19wOwnData(n.AddDependency("p"), s.Data)
+			}
 		case "branchend":
-			n.AddInput(compose.START)
+			c19wOwnData(n, s.Data)
 			ends = append(ends, key)
+		default:
+			return nil, fmt.Errorf("successor kind %q", s.Kind)
 		}
 		wf.End().AddInput(key, compose.MapFields(key, key))
 	}
@@ -127,6 +173,14 @@ func c19wBuild(c *c19wCase, tr *c19Tracker) (*compose.Workflow[gcase.M, gcase.M]
 
 func c19wOne(ctx *vh.Ctx, c *c19wCase) error {
 	ctx.Progress.Mark(c)
+	raw, err := ctx.Oracle.Ask("C19", c)
+	if err != nil {
+		return err
+	}
+	var model c19wVerdict
+	if err := json.Unmarshal(raw, &model); err != nil {
+		return fmt.Errorf("C19 workflow oracle answer %s: %w", raw, err)
+	}
 	tr := &c19Tracker{blocked: map[string]int{}}
 	wf, err := c19wBuild(c, tr)
 	if err != nil {
@@ -171,6 +225,10 @@ func c19wOne(ctx *vh.Ctx, c *c19wCase) error {
 			for c.Consume < 0 || got < c.Consume {
 				_, e := sr.Recv()
 				if e != nil {
+					if e != io.EOF {
+						// an error item instead of the end: the run did not complete
+						runErr = e
+					}
 					break
 				}
 				got++
@@ -183,8 +241,18 @@ func c19wOne(ctx *vh.Ctx, c *c19wCase) error {
 	}
 	kinds := map[string]bool{}
 	for _, s := range c.Succ {
-		kinds[s.Kind] = true
-		ctx.Res.Dist("wf:succ=" + s.Kind)
+		k := s.Kind
+		if (s.Kind == "dep" || s.Kind == "branchend") && s.Data != "" && s.Data != "start" {
+			k += "/" + s.Data
+		}
+		kinds[k] = true
+		ctx.Res.Dist("wf:succ=" + k)
+	}
+	if len(model.NoDataPreds) > 0 {
+		ctx.Res.Dist("wf:copy-to-target-without-data-preds")
+	}
+	if model.MustFinish {
+		ctx.Res.Dist("wf:some-reader-drains")
 	}
 	ctx.Res.Dist("wf:cond=" + c.Cond)
 	for _, h := range c.Handlers {
@@ -199,11 +267,19 @@ func c19wOne(ctx *vh.Ctx, c *c19wCase) error {
 	if runErr != nil {
 		// the property's precondition (the run completes) does not hold
 		ctx.Res.Dist("wf:out-of-scope(run-error)")
+		if os.Getenv("C19W_DEBUG") != "" {
+			fmt.Fprintln(os.Stderr, "RUN-ERR", runErr, vh.Canon(c))
+		}
 		ctx.Res.Count("oos", false)
 		return nil
 	}
 	ctx.Res.Count("wf:"+vh.Canon(c), len(c.Succ) >= 1 && (c.Cond != "none" || len(kinds) >= 2))
 	ctx.Res.Sample(c)
+	if model.Copies != model.Ledger {
+		// the two models of resolveCompletedTasks (copy-routing model, ledger) must agree on the count
+		ctx.Res.Disagree(vh.Disagreement{Signature: "C19:wf:model-copy-count", What: "the copy-routing model and the ledger disagree on the number of readers", Case: c, Model: model})
+		return nil
+	}
 	sigShape := func() string {
 		var ks []string
 		for k := range kinds {
@@ -217,11 +293,26 @@ func c19wOne(ctx *vh.Ctx, c *c19wCase) error {
 		return strings.Join(ks, "+") + ":" + c.Cond + sfx
 	}
 	if !tr.settled(4 * time.Second) {
+		if !model.MustRelease {
+			// (not reachable with the fact values the theorems are proved for)
+			ctx.Res.Dist("wf:blocked-as-the-model-says")
+			return nil
+		}
+		sent, _ := tr.sentOf("p")
 		ctx.Res.Disagree(vh.Disagreement{Signature: "C19:wf:producer-blocked:" + sigShape(),
-			What: fmt.Sprintf("after the workflow run completed and its output was %s, the producer is still blocked on a send (a copy of its stream was dropped without being closed)",
-				map[bool]string{true: "read to the end", false: "closed early"}[c.Consume < 0]),
-			Case: c, Impl: map[string]any{"started": atomic.LoadInt32(&tr.started), "exited": atomic.LoadInt32(&tr.exited)}})
+			What: fmt.Sprintf("after the workflow run completed and its output was %s, the producer is still blocked on a send (a copy of its stream was dropped without being closed); the model has every one of the %d copies drained or closed",
+				map[bool]string{true: "read to the end", false: "closed early"}[c.Consume < 0], model.Copies),
+			Case: c, Model: model, Impl: map[string]any{"started": atomic.LoadInt32(&tr.started), "exited": atomic.LoadInt32(&tr.exited), "sent": sent}})
 		return nil
+	}
+	if model.MustFinish && atomic.LoadInt32(&tr.started) > 0 {
+		// some reader reads the producer's stream to the end: the source must not be closed under it
+		if sent, cut := tr.sentOf("p"); cut || sent < c.Chunks {
+			ctx.Res.Disagree(vh.Disagreement{Signature: "C19:wf:producer-cut-off:" + sigShape(),
+				What: fmt.Sprintf("a consumer reads the producer's stream to the end, but the producer was told to stop after %d of %d chunks (its source was closed while a copy was still being read)", sent, c.Chunks),
+				Case: c, Model: model, Impl: map[string]any{"sent": sent, "cut": cut}})
+			return nil
+		}
 	}
 	deadline := time.Now().Add(3 * time.Second)
 	for runtime.NumGoroutine() > base && time.Now().Before(deadline) {
@@ -244,7 +335,7 @@ func c19wGen(r *vh.Rand) *c19wCase {
 	for i := 0; i < nSucc; i++ {
 		k := kinds[r.Intn(len(kinds))]
 		key := fmt.Sprintf("n%d", i)
-		c.Succ = append(c.Succ, c19wSucc{Key: key, Kind: k})
+		c.Succ = append(c.Succ, c19wSucc{Key: key, Kind: k, Data: c19wGenData(r, k)})
 		if k == "branchend" {
 			ends = append(ends, key)
 		}
@@ -255,7 +346,7 @@ func c19wGen(r *vh.Rand) *c19wCase {
 	if len(ends) == 1 {
 		// a branch needs at least two ends
 		key := fmt.Sprintf("n%d", nSucc)
-		c.Succ = append(c.Succ, c19wSucc{Key: key, Kind: "branchend"})
+		c.Succ = append(c.Succ, c19wSucc{Key: key, Kind: "branchend", Data: c19wGenData(r, "branchend")})
 		ends = append(ends, key)
 	}
 	c.Cond = "none"
@@ -280,6 +371,32 @@ func c19wGen(r *vh.Rand) *c19wCase {
 	return c
 }
 
+// own data input of a control-only successor (see c19wSucc.Data)
+func c19wGenData(r *vh.Rand, kind string) string {
+	switch kind {
+	case "branchend":
+		return []string{"", "", "", "", "none", "none", "static", "indirect", "pdata", "pdata"}[r.Intn(10)]
+	case "dep":
+		return []string{"", "", "", "", "", "none", "none", "static", "indirect", "indirect"}[r.Intn(10)]
+	}
+	return ""
+}
+
+// fixed corpus: the negation witness of Props/C19.lean (skipped_target_witness) and its
+// neighbours — the only successors of the producer are the ends of a prefix-reading branch, the
+// selected one has no data predecessor; nobody else reads the producer's stream.
+func c19wCorpus() []*c19wCase {
+	var out []*c19wCase
+	for _, d := range []string{"none", "static"} {
+		for _, cond := range []string{"prefix", "multi-prefix"} {
+			out = append(out, &c19wCase{Kind: "workflow", Chunks: 3,
+				Succ:   []c19wSucc{{Key: "n0", Kind: "branchend", Data: d}, {Key: "n1", Kind: "branchend"}},
+				Cond:   cond, Select: []string{"n0"}, Paradigm: "stream", Consume: -1})
+		}
+	}
+	return out
+}
+
 func c19wReplay(ctx *vh.Ctx, raw json.RawMessage) (bool, error) {
 	var probe struct {
 		Kind string `json:"kind"`
@@ -295,6 +412,11 @@ func c19wReplay(ctx *vh.Ctx, raw json.RawMessage) (bool, error) {
 }
 
 func c19wRun(ctx *vh.Ctx) error {
+	for _, c := range c19wCorpus() {
+		if err := c19wOne(ctx, c); err != nil {
+			return err
+		}
+	}
 	n := ctx.N(1000, 6000)
 	for i := 0; i < n && ctx.TimeLeft(); i++ {
 		if err := c19wOne(ctx, c19wGen(ctx.Rng)); err != nil {
